@@ -103,3 +103,29 @@ void _List_node_base::_M_unhook() noexcept
 }
 }
 }
+
+/* the C library sort, so that the engine's own comparators run in the encoding: a stable insertion sort
+ * (what is sorted, not how, is what the callers rely on; the real qsort gives the same result for the
+ * total orders used and any consistent result otherwise) */
+#include <stdlib.h>
+#include <string.h>
+#undef qsort
+extern "C" void qsort(void *base, size_t n, size_t size, int (*cmp)(const void *, const void *))
+{
+	if (n < 2 || size == 0) return;
+	char *b = (char *) base;
+	char *tmp = (char *) malloc(size);
+	if (!tmp) abort();
+	for (size_t i = 1; i < n; i++)
+	{
+		memcpy(tmp, b + i * size, size);
+		size_t j = i;
+		while (j > 0 && cmp(b + (j - 1) * size, tmp) > 0)
+		{
+			memcpy(b + j * size, b + (j - 1) * size, size);
+			j--;
+		}
+		memcpy(b + j * size, tmp, size);
+	}
+	free(tmp);
+}
